@@ -359,6 +359,15 @@ static void quiescent(void) {
   fmc_finish(V_DEADLOCK, "stuck: every kernel thread is idle or spinning and the harness has not finished");
 }
 
+// default successor at a cost-free yield: a thread that was pre-empted (or has not started yet)
+// before threads that gave the cpu up themselves - otherwise two idle threads can keep handing
+// the cpu to each other while a pre-empted third one never runs again
+static int pick_default(unsigned mask) {
+  for (int k = 0; k < nth; k++)
+    if (((mask >> k) & 1) && !T[k].yielded) return k;
+  return __builtin_ctz(mask);
+}
+
 static void do_yield(int kind) {  // 0 polite (spinning), 1 idle (would block), 2 forced by the fairness budget
   int idle = kind == 1, forced = kind == 2;
   struct th* t = &T[me];
@@ -430,7 +439,7 @@ static void do_yield(int kind) {  // 0 polite (spinning), 1 idle (would block), 
     return;
   }
   t->spin_rounds = 0;
-  int chosen = __builtin_ctz(mask);
+  int chosen = pick_default(mask);
   if (__builtin_popcount(mask) > 1) chosen = choose(K_YIELD, mask, chosen, 0, 0);
   do_switch(chosen);
   t->yielded = 0;
@@ -590,7 +599,7 @@ void fmc_wait_threads(void) {
       if (!mask) quiescent();
       if (!mask) continue;
     }
-    int chosen = __builtin_ctz(mask);
+    int chosen = pick_default(mask);
     if (__builtin_popcount(mask) > 1) chosen = choose(K_YIELD, mask, chosen, 0, 0);
     t->yielded = 1;  // (do_switch clears it for the thread that is switched to)
     t->idle = 1;
@@ -636,7 +645,7 @@ static void thread_exit_switch(void) {
     for (int k = 0; k < nth; k++)
       if (k != me && T[k].alive) mask |= 1u << k;
   if (!mask) fmc_finish(V_FAIL, "all threads exited without fmc_end");
-  int chosen = __builtin_ctz(mask);
+  int chosen = pick_default(mask);
   if (__builtin_popcount(mask) > 1) chosen = choose(K_YIELD, mask, chosen, 0, 0);
   TRC("[%lu] T%d exits -> T%d\n", (unsigned long)TR->steps, me, chosen);
   if (fmc_tso) sb_show(&T[chosen]);
